@@ -5,7 +5,7 @@ from pyvc import driver
 from pyvc.contracts import REG
 for m in sys.argv[1].split(','):
     importlib.import_module('contracts.' + m)
-quals = [x for x in sys.argv[2:] if not x.startswith("-")] or list(REG.contracts)
+quals = [x for x in sys.argv[2:] if not x.startswith("-")] or [q for q, c in REG.contracts.items() if not c.external]
 for q in quals:
     if q not in REG.contracts: 
         q = [x for x in REG.contracts if x.endswith(q)][0]
